@@ -51,7 +51,6 @@ PROPS = {
         unverified_links=[
             "utxo_set.rs::get_balance / get_address_outpoints (reverted balances and address index while paused) and state.rs/heartbeat.rs glue that calls ingest_block(_continue)",
             "utxos.rs (small/medium/large stable maps), StableBTreeMap<Address, u64>, the address index keyed by AddressUtxo::to_bytes: stand-ins with map semantics (key codec: Kani harnesses of C01)",
-            "UtxoSet::ingest_block (starts an ingestion: assert + IngestingBlock::new + ingest_block_continue) is not extracted; paused_ok at the start (empty delta, position 0) is immediate from its definition",
             "liveness (ingestion finishes after finitely many rounds): needs an assumption on default_should_time_slice",
         ],
         assumptions=COMMON_ASSUMPTIONS + [
